@@ -218,7 +218,7 @@ func c12Emit(b *bytes.Buffer, gens []*c12Gen) {
 }
 
 func init() {
-	extraGens = append(extraGens, func(repo, out string) {
+	registerGen([]string{"Access.v"}, func(repo, out string) {
 		chp := c12Load(repo, "ch", ".")
 		g1 := &c12Gen{p: chp, rows: map[c12Row]bool{}, calls: map[[3]string]int{}, seen: map[string]bool{}}
 		g1.entry("Client.Do", "DoBefore")
